@@ -6,7 +6,7 @@
    exceptional exit satisfies E.  `unchanged h h'` = every cell of every block, the set of live blocks, their
    sizes and all data-member registers are exactly as before (strong guarantee incl. "nothing leaked"). *)
 From Coq Require Import List Arith Lia Bool.
-From C04 Require Import Effects ObjMgr ArrayData Ctor KeyValue Tree.
+From C04 Require Import Effects ObjMgr ArrayData Ctor KeyValue Tree Relocator.
 Import ListNotations.
 
 (* ObjectManager::RelocateExec (both overloads of pvRelocateExec, ObjectManager.h:508-535), for every element
@@ -244,3 +244,33 @@ Theorem node_remove_shiftback :
        (fun s' => unchanged (hp s) (hp s')).
 Proof. exact node_remove_spec. Qed.
 Print Assumptions node_remove_shiftback.
+
+(* The tree Relocator (TreeSet.h:346-499) at node granularity: CreateNode for every node of the plan (a failing node
+   allocation is a failure point), RelocateCreate over the segment iterators (every item copy / throwing move and the item
+   creator are failure points), commit = swap of the node lists, destructor = free mNewNodes.  For every plan (node sizes,
+   sources, destinations, replaced nodes) that is well formed, every category and every schedule:
+   on an exception every cell of every live node, the set of live nodes, their sizes and all data members are as before
+   (exactly the nodes built aside were freed); on success exactly the planned nodes are live instead of the old ones,
+   every relocated item is in its planned place and the old places are raw. *)
+Theorem relocator_commit_or_rollback :
+  forall c sizes src dst count creator newl olds fp P R s,
+    wf (hp s) -> sizes <> [] ->
+    exec_spec (creator (newl (next (hp s)))) fp P R ->
+    (forall j, j < count -> ~ fp (src j) /\ ~ fp (dst (next (hp s)) j)) ->
+    (forall h1, allocd (hp s) sizes (length sizes) h1 -> range_pre src (dst (next (hp s))) count h1 /\ P h1) ->
+    NoDup olds ->
+    (forall b, In b olds -> alive (hp s) b = true /\
+               forall x, x < bsize (hp s) b -> mem (hp s) (b, x) = Raw \/ exists j, j < count /\ src j = (b, x)) ->
+    (forall b x, In b olds -> ~ fp (b, x)) ->
+    (forall j, j < count -> ~ In (fst (dst (next (hp s)) j)) olds) ->
+    wp (relocator_run c sizes src dst count creator newl olds) s
+       (fun _ s' => (forall b, In b olds -> alive (hp s') b = false) /\
+                    (forall i, i < length sizes -> alive (hp s') (next (hp s) + i) = true) /\
+                    (forall b, b < next (hp s) -> ~ In b olds -> alive (hp s') b = alive (hp s) b) /\
+                    (forall j, j < count -> mem (hp s') (dst (next (hp s)) j) = mem (hp s) (src j) /\ mem (hp s') (src j) = Raw) /\
+                    (forall l, fst l < next (hp s) -> ~ fp l -> (forall j, j < count -> src j <> l) ->
+                               (forall j, j < count -> dst (next (hp s)) j <> l) -> mem (hp s') l = mem (hp s) l) /\
+                    rfields_same (hp s) (hp s'))
+       (fun s' => rolled_back (hp s) (hp s')).
+Proof. exact relocator_spec. Qed.
+Print Assumptions relocator_commit_or_rollback.
